@@ -260,6 +260,17 @@ func (m *Machine) Exec(op Op) (Event, error) {
 		ev.V = Dump(obj)
 		MutateInPlace(obj)
 		ev.VPost = Dump(obj)
+	case "sharepointers":
+		// the caller builds a message in which one nested object is referenced more than once (the same
+		// pointer twice in a repeating group, and as a nested part): a legitimate receiver state
+		obj, ok := m.Objs[op.O]
+		if !ok {
+			return ev, fmt.Errorf("sharepointers: no object %s", op.O)
+		}
+		SharePointers(obj)
+		ev.T = m.Types[op.O]
+		ev.VPost = Dump(obj)
+		ev.V = ev.VPost
 	case "observe":
 		obj, ok := m.Objs[op.O]
 		if !ok {
@@ -543,4 +554,29 @@ func OpOfEvent(e map[string]any) (Op, error) {
 		op.V = ev.V
 	}
 	return op, nil
+}
+
+// SharePointers makes list element 1 the same pointer as element 0 in every repeating group, and
+// makes a nested part of the same type point to element 0 as well.
+func SharePointers(obj any) {
+	rv := reflect.ValueOf(obj)
+	if rv.Kind() != reflect.Ptr || rv.IsNil() {
+		return
+	}
+	rv = rv.Elem()
+	if rv.Kind() != reflect.Struct {
+		return
+	}
+	for i := 0; i < rv.NumField(); i++ {
+		f := rv.Field(i)
+		if f.Kind() == reflect.Slice && f.Type().Elem().Kind() == reflect.Ptr && f.Len() >= 2 {
+			f.Index(1).Set(f.Index(0))
+			for j := 0; j < rv.NumField(); j++ {
+				g := rv.Field(j)
+				if g.Kind() == reflect.Ptr && g.Type() == f.Type().Elem() && g.CanSet() {
+					g.Set(f.Index(0))
+				}
+			}
+		}
+	}
 }
